@@ -484,6 +484,8 @@ class Interp:
         if k == "named":
             if c[1].endswith("UNIX_EPOCH"):
                 return Opaque("time", 0)
+            if c[1] in ("RangeFull", "std::ops::RangeFull", "core::ops::RangeFull"):
+                return Agg("adt:RangeFull", None, [])
             r = self.p.resolve_named_const(c[1])
             if r is not None and r[0] != "unparsed":
                 return self.const_value(r, fr)
